@@ -194,6 +194,73 @@ def build_tool(bin_name):
     raise ToolError("tool %s built but no executable reported" % bin_name)
 
 
+def build_many(crates, release=False, max_rounds=8, tests=False):
+    """Build several generated crates with ONE cargo invocation per round (cargo then compiles them in
+    parallel), dropping declarations that fail to compile until everything builds."""
+    t = Timer()
+    for c in crates:
+        c.write()
+    by_name = {c.name: c for c in crates}
+    pending = list(crates)
+    for rnd in range(max_rounds):
+        cmd = ["cargo", "test" if tests else "build", "--offline", "--message-format=json"]
+        cmd.append("--no-run" if tests else "--keep-going")
+        if release:
+            cmd.append("--release")
+        for c in pending:
+            cmd += ["-p", c.name]
+        p = subprocess.run(cmd, cwd=WS, env={**os.environ, **CARGO_ENV}, stdout=subprocess.PIPE, stderr=subprocess.PIPE, text=True)
+        errs, unattributed, built = {}, [], set()
+        for line in p.stdout.splitlines():
+            if not line.startswith("{"):
+                continue
+            try:
+                o = json.loads(line)
+            except ValueError:
+                continue
+            if o.get("reason") == "compiler-artifact":
+                nm = o.get("target", {}).get("name")
+                if nm in by_name:
+                    built.add(nm)
+                    if o.get("executable"):
+                        by_name[nm].exe = o["executable"]
+                    if tests and o.get("profile", {}).get("test") and o.get("executable"):
+                        by_name[nm].test_exe = o["executable"]
+                continue
+            if o.get("reason") != "compiler-message":
+                continue
+            m = o["message"]
+            if m.get("level") != "error":
+                continue
+            if m.get("message", "").startswith("aborting due to") or "could not compile" in m.get("message", ""):
+                continue
+            nm = o.get("target", {}).get("name")
+            c = by_name.get(nm)
+            k = c._attribute(m) if c else None
+            if c is None or k is None or k not in c.files:
+                unattributed.append((nm, m.get("rendered") or m.get("message")))
+            else:
+                code = (m.get("code") or {}).get("code") or ""
+                errs.setdefault(nm, {}).setdefault(k, []).append((code + " " + m.get("message", "")).strip())
+        failing = [c for c in pending if c.name in errs]
+        if unattributed and not failing:
+            raise ToolError("build failed for a reason not attributable to a declaration:\n%s\n%s" % (
+                "\n".join("%s: %s" % u for u in unattributed[:5]), p.stderr[-2000:]))
+        if p.returncode == 0 or not failing:
+            if p.returncode != 0:
+                raise ToolError("cargo failed without attributable errors:\n%s" % p.stderr[-3000:])
+            log("  build %d crates: %d decls alive, %d rejected, %d rounds, %.1fs" % (
+                len(crates), sum(len(c.alive) for c in crates), sum(len(c.rejected) for c in crates), rnd + 1, t.s()))
+            return
+        for c in failing:
+            for k, ms in errs[c.name].items():
+                c.rejected.setdefault(k, []).extend(ms)
+            c.alive = [k for k in c.alive if k not in c.rejected]
+            c._write_main()
+        pending = failing if not unattributed else pending
+    raise ToolError("crates still failing after %d rounds" % max_rounds)
+
+
 def shard(items, n):
     items = list(items)
     out = [[] for _ in range(max(1, n))]
